@@ -21,10 +21,12 @@ func newCountedLock() *countedLock {
 }
 
 func (m *countedLock) Lock(ctx context.Context) bool {
+	verifYield("L2a", "")
 	// If the context is already cancelled don't even try to lock.
 	if ctx.Err() != nil {
 		return false
 	}
+	verifYield("L2b", "")
 	select {
 	case m.ch <- struct{}{}:
 		return true
